@@ -45,6 +45,8 @@ class Family:
 
 
 def run(ck, prog):
+    from props.common import check_memos
+    ck.attempt(check_memos, ck, prog)
     ck.explanation = (
         "deltaMax is walked regime by regime: branch conditions become linear constraints over (n+, n-, N), the candidate "
         "strings are kept in a run-length domain with affine block sizes, loop ranges are affine; regime cascade and families "
